@@ -709,6 +709,55 @@ def _assigned_names(func):
 
 
 _ALIAS_CACHE = {}
+_STALE_CACHE = {}
+
+
+def stale_copy(func, name, defnode):
+    """is the single-assignment local `name = ...<loc>.attr...` read after <loc>.attr has been
+    written again in the same function?  Then the local holds the OLD value and is not an alias
+    of the location any more (`expected = self.duration; self.duration = f(); if expected < total`).
+    Decided by position: a write to the very same location text after the copy, and a read of
+    the local after that write (both in source order; a write inside the same loop also counts
+    for reads at the top of the loop body)."""
+    ck = (id(func.node), name, id(defnode))
+    if ck in _STALE_CACHE:
+        return _STALE_CACHE[ck]
+    _STALE_CACHE[ck] = False
+    val = getattr(defnode, 'value', None)
+    if val is None:
+        return False
+    locs = {ast.unparse(x) for x in ast.walk(val) if isinstance(x, ast.Attribute)}
+    if not locs:
+        return False
+    dline = getattr(defnode, 'end_lineno', None) or defnode.lineno
+    writes = []
+    for n in _walk_no_nested_funcs(func.node):
+        tg = []
+        if isinstance(n, ast.Assign):
+            tg = [y for t in n.targets for y in ([t] if not isinstance(t, (ast.Tuple, ast.List)) else t.elts)]
+        elif isinstance(n, (ast.AugAssign, ast.AnnAssign)):
+            tg = [n.target]
+        for t in tg:
+            if isinstance(t, ast.Attribute) and ast.unparse(t) in locs and n is not defnode and n.lineno > dline:
+                writes.append(getattr(n, 'end_lineno', None) or n.lineno)
+    if not writes:
+        return False
+    first = min(writes)
+    for n in _walk_no_nested_funcs(func.node):
+        if isinstance(n, ast.Name) and n.id == name and isinstance(n.ctx, ast.Load) and n.lineno > first:
+            _STALE_CACHE[ck] = True
+            return True
+    return False
+
+
+def _walk_no_nested_funcs(root):
+    stack = list(ast.iter_child_nodes(root))
+    while stack:
+        n = stack.pop()
+        yield n
+        if isinstance(n, (ast.FunctionDef, ast.AsyncFunctionDef, ast.Lambda, ast.ClassDef)):
+            continue
+        stack.extend(ast.iter_child_nodes(n))
 
 
 def local_aliases(func, pure_only=False):
@@ -743,6 +792,8 @@ def local_aliases(func, pure_only=False):
                 continue
             # a self-referential definition is not an alias
             if any(isinstance(x, ast.Name) and x.id == name for x in ast.walk(n.value)):
+                continue
+            if stale_copy(func, name, n):
                 continue
             out[name] = n.value
     return out
